@@ -848,6 +848,8 @@ class Interferogram(RichData):
         """Strip the lateral calibration and revert to pixels."""
         self.dx = 1.
         self.x, self.y = make_xy_grid(self.data.shape, dx=self.dx)
+        # the polar grids are derived from x, y: drop them so they are rebuilt from the new Cartesian grid
+        self._r, self._t = None, None
         self._latcaled = False
         return self
 
